@@ -180,6 +180,9 @@ func runC13(c *runCtx, only string) {
 	if only == "" && c.shard == c.nshards-1 {
 		runOverload(c)
 	}
+	if only == "" && (c.shard == c.nshards-2 || c.nshards == 1) {
+		runSlowConsumer(c)
+	}
 	srv := NewServer(filepath.Join(c.scratch, "main"))
 	defer srv.Close()
 	if err := srv.Start(); err != nil {
